@@ -6,6 +6,7 @@ import DiskfsModel.Model.Mbr
 import DiskfsModel.Model.MbrTable
 import DiskfsModel.Spec.GptValid
 import DiskfsModel.Proofs.GptCrashFlat
+import DiskfsModel.Proofs.GptGeomCrash
 /-!
   Model driver for the engines gpt (C02), gptcrash (C09) and tblrobust (C15).
   Devices are sparse lists of extents (later extents win) or, for the crash
@@ -241,6 +242,51 @@ def opRewrite (args : List String) : String :=
     | .panic _ => "res=panic"
   | _ => "res=noread"
 
+/-! ### gpt.rmw: read-modify-write of a table of ANY geometry (C02 theorems gpt_read_write_geom / gpt_written_valid_geom):
+    gpt.Read of the device bytes, the partitions replaced by `nparts` (and the disk GUID by `nguid`; `repair=1`:
+    Table.Repair(size)), Write (`writeUp`: the header's geometry is kept, the size argument ignored).  Reports the
+    write list, the partitions Write was left with, whether the geometry satisfies `GeomWF` / the usable range
+    `UsableWF`, and — on the model's resulting device — what gpt.Read returns and the verdict of the Lean
+    specification `GptValid`. -/
+
+def usableB (t : Table) : Bool :=
+  decide (2 + partSectorsUp t ≤ t.firstData) && decide (2 * t.lss + 16384 ≤ t.firstData * t.lss) &&
+  decide (t.firstData ≤ t.lastData + 1) && decide (t.lastData < t.secondaryHeader - partSectorsUp t)
+
+def opRmw (args : List String) : String :=
+  let c := parseCfg args
+  let base := parseExts ((arg args "dev").getD "-")
+  let d := extsDev base
+  let size := argNatD args "size"
+  let lss := argNatD args "lss" 512
+  match Gpt.read c crc32 d size lss with
+  | (.ok t1, _) =>
+    let t2 := match arg args "nparts" with
+      | some ps => { t1 with parts := parseParts ps }
+      | none => t1
+    let t3 := match arg args "nguid" with
+      | some g => { t2 with guid := hexB g }
+      | none => t2
+    let t4 := if (arg args "repair").getD "0" == "1" then repairUp t3 size else t3
+    let wf := if decide (GeomWF t4 size) then 1 else 0
+    let uw := if usableB t4 then 1 else 0
+    match Gpt.writeUp c crc32 t4 size with
+    | .ok (ws, t5) =>
+      let dN := extsDev (ws.foldl (fun (e : Exts) w => e.push (w.off, ByteArray.mk w.data.toArray)) base)
+      let rb := match Gpt.read c crc32 dN size lss with
+        | (.ok t6, _) => s!"{if t6.backup then 1 else 0}:{toHex t6.guid}:{partsStr t6.parts}"
+        | _ => "err"
+      let rt := if (Gpt.read c crc32 dN size lss).1.isOk &&
+                   (match (Gpt.read c crc32 dN size lss).1 with
+                    | .ok t6 => t6.parts == (List.range t4.arrCount).filterMap (fun i =>
+                        (t5.parts.find? (fun q => q.index == i + 1)).bind fun p => if allZero p.typ then none else some p)
+                    | _ => false) then 1 else 0
+      let v := if GptSpec.gptValidB crc32 dN size lss then 1 else 0
+      s!"res=ok\tws={wrsFinger ws}\tparts={partsStr t5.parts}\tgeo={t5.primaryHeader},{t5.secondaryHeader},{t5.firstData},{t5.lastData},{t5.arrCount}\twf={wf}\tuw={uw}\trb={rb}\trt={rt}\tvalid={v}"
+    | .err _ => s!"res=err\twf={wf}"
+    | .panic _ => "res=panic"
+  | _ => "res=noread"
+
 def opMbrRewrite (args : List String) : String :=
   let d := extsDev (parseExts ((arg args "dev").getD "-"))
   match Mbr.read d (argNatD args "size") with
@@ -283,6 +329,22 @@ def classifyRec (oldParts newParts : Option (List Part)) (d : Dev) (size lss : N
     level does not carry the from-backup flag, so classes are upper case -/
 def classifyRecPT (oldParts newParts : Option (List Part)) (oldMbr : Option (List Mbr.Part)) (d : Dev) (size lss : Nat) : Char :=
   match GptCrash.partRead (GptCrash.flatReader crc32 size lss) GptCrash.mbrViewFlat (GptCrash.toDisk d size lss) with
+  | .gpt ps => if some ps == newParts then 'N' else if some ps == oldParts then 'O' else 'X'
+  | .mbr ps => if some ps == oldMbr then 'M' else 'Y'
+  | .err => 'E'
+
+/-- the record-level readers of the ANY-GEOMETRY theorems (Proofs/GptGeomFlat.lean, GptGeomCrash.lean): the device viewed
+    as the five regions of geometry `g` (`toDiskG`: the last array sector short when the array does not end on a sector
+    boundary) and read by `GptCrash.read` / `partRead` instantiated with the real decoders (`flatReaderG`) -/
+def classifyRecG (oldParts newParts : Option (List Part)) (d : Dev) (g : GptCrash.Geo) : Char :=
+  match GptCrash.read (GptCrash.flatReaderG crc32 g) (GptCrash.toDiskG d g) with
+  | .ok ps fromBackup =>
+    let c := if some ps == newParts then 'N' else if some ps == oldParts then 'O' else 'X'
+    if fromBackup then c.toLower else c
+  | .err => 'E'
+
+def classifyRecPTG (oldParts newParts : Option (List Part)) (oldMbr : Option (List Mbr.Part)) (d : Dev) (g : GptCrash.Geo) : Char :=
+  match GptCrash.partRead (GptCrash.flatReaderG crc32 g) GptCrash.mbrViewFlat (GptCrash.toDiskG d g) with
   | .gpt ps => if some ps == newParts then 'N' else if some ps == oldParts then 'O' else 'X'
   | .mbr ps => if some ps == oldMbr then 'M' else 'Y'
   | .err => 'E'
@@ -393,31 +455,36 @@ def opCrash (args : List String) : String :=
   match newTable with
   | none => "res=noread"
   | some nt =>
+  -- the geometry the new table carries (a fresh table: what initTable makes of it) and its well-formedness
+  let ntI := if nt.initialized then nt else initTableUp nt size
+  let geo := GptCrash.geoOf ntI
+  let geoLevel := (arg args "geo").getD "0" == "1"
+  let wf := if decide (GeomWF ntI size) then "1" else "0"
   match Gpt.writeUp c crc32 nt size with
   | .ok (ws, _) =>
     let newParts := partsOf (ws.foldl Img.apply img1)
-    let both (d : Dev) : Char × Char × Char × Char :=
+    let both (d : Dev) : List Char :=
       let g := Gpt.read c crc32 d size lss
-      (classify oldParts newParts g.1, classifyPT oldParts newParts oldMbr (PartTable.readWith g d size).1,
+      [classify oldParts newParts g.1, classifyPT oldParts newParts oldMbr (PartTable.readWith g d size).1,
        if recLevel then classifyRec oldParts newParts d size lss else '-',
-       if recLevel then classifyRecPT oldParts newParts oldMbr d size lss else '-')
-    let stage (k : Nat) : String × String × String × String :=
+       if recLevel then classifyRecPT oldParts newParts oldMbr d size lss else '-',
+       if geoLevel then classifyRecG oldParts newParts d geo else '-',
+       if geoLevel then classifyRecPTG oldParts newParts oldMbr d geo else '-']
+    let stage (k : Nat) : List String :=
       let imgk := (ws.take k).foldl Img.apply img1
       match ws[k]? with
-      | none =>
-        let r := both imgk.dev
-        (String.singleton r.1, String.singleton r.2.1, String.singleton r.2.2.1, String.singleton r.2.2.2)
+      | none => (both imgk.dev).map String.singleton
       | some w =>
         let n := (w.data.length + lss - 1) / lss
         let rs := (family n).map fun keep => both ((tornPieces lss w keep).foldl Img.apply imgk).dev
-        (String.ofList (rs.map (·.1)), String.ofList (rs.map (·.2.1)), String.ofList (rs.map (·.2.2.1)),
-         String.ofList (rs.map (·.2.2.2)))
+        (List.range 6).map fun i => String.ofList (rs.map (·.getD i '-'))
     let all := (List.range (ws.length + 1)).map stage
-    let g := ",".intercalate (all.map (·.1))
-    let p := ",".intercalate (all.map (·.2.1))
-    let r := if recLevel then ",".intercalate (all.map (·.2.2.1)) else "-"
-    let q := if recLevel then ",".intercalate (all.map (·.2.2.2)) else "-"
-    s!"res=ok\tn={ws.length}\tg={g}\tp={p}\tr={r}\tq={q}"
+    let col (i : Nat) : String := ",".intercalate (all.map (·.getD i "-"))
+    let r := if recLevel then col 2 else "-"
+    let q := if recLevel then col 3 else "-"
+    let rg := if geoLevel then col 4 else "-"
+    let qg := if geoLevel then col 5 else "-"
+    s!"res=ok\tn={ws.length}\tg={col 0}\tp={col 1}\tr={r}\tq={q}\trg={rg}\tqg={qg}\twf={wf}"
   | _ => "res=err"
 
 end Driver.Gpt
@@ -433,6 +500,7 @@ def main : IO Unit := Driver.runLoop fun op args =>
   | "gpt.entry" => Driver.Gpt.opEntry args
   | "gpt.valid" => Driver.Gpt.opValid args
   | "gpt.rewrite" => Driver.Gpt.opRewrite args
+  | "gpt.rmw" => Driver.Gpt.opRmw args
   | "mbr.rewrite" => Driver.Gpt.opMbrRewrite args
   | "mbr.readt" => Driver.Gpt.opMbrReadT args
   | "mbr.writet" => Driver.Gpt.opMbrWriteT args
